@@ -192,6 +192,7 @@ pub struct RunResult {
     pub state_probes: u64,
     pub capped: bool,
     pub outcomes: BTreeMap<String, u64>,
+    pub roots_rejected: u64,
 }
 
 pub struct Budget {
@@ -278,6 +279,7 @@ impl<'a> Explorer<'a> {
 
     /// Evaluate `hist + [op]`: returns (key, pruned)
     fn eval(&self, hist: &[OpId], op: OpId, scratch: &mut History, outcomes: &mut BTreeMap<String, u64>) -> (Option<u128>, bool) {
+        crate::trace(|| serde_json::json!({"profile": self.prof.name, "history": self.prof.render(hist), "step": format!("{:?}", self.prof.table[op as usize])}).to_string());
         let mut p = replay(self.prof, hist);
         let o = self.prof.table[op as usize];
         let rec = oracle::step(&mut p, o, self.prof.form);
@@ -319,6 +321,21 @@ impl<'a> Explorer<'a> {
         // level 0: the roots themselves
         let mut frontier: Vec<History> = Vec::new();
         for r in roots {
+            // a root is a seed prefix: every step of it is checked like any other transition
+            let mut scratch = History::new();
+            let mut root_ok = true;
+            for n in 0..r.len() {
+                let (key, pruned) = self.eval(&r[..n], r[n], &mut scratch, &mut res.outcomes);
+                res.transitions += 1;
+                if pruned || key.is_none() {
+                    root_ok = false;
+                    break;
+                }
+            }
+            if !root_ok {
+                res.roots_rejected += 1;
+                continue;
+            }
             let p = replay(self.prof, &r);
             let k = hash128(&canonical_key(&p));
             drop(p);
